@@ -1,4 +1,4 @@
-CONSTANTS SIZES = {2, 3}  TMAX = 3  WMAX = 4  MAXE = 2  MAXW = 1  ITERS = 2  KEYS = {1, 2}  BEFORE = FALSE
+CONSTANTS SIZES = {2, 3}  TMAX = 3  WMAX = 4  MAXE = 2  MAXW = 1  ITERS = 2  KEYS = {1, 2}  BEFORE = FALSE  FIX_F4 = TRUE
 SPECIFICATION Spec
-INVARIANTS TypeOK C13_All
+INVARIANTS TypeOK C13_All C06_Late
 CHECK_DEADLOCK FALSE
